@@ -61,6 +61,9 @@ struct System {
   // extra two-deviation assignments explored even when the deviation bound is 1: both parameters of a pair set to 0 (shortcuts that
   // fire only when several amplitudes vanish together). Returns a group label; pairs are formed inside a group. Empty label = not grouped.
   std::function<std::string(const std::string&)> zero_pair_group;
+  // structured assignments with any number of deviations (e.g. "field T does not depend on x and y": all amplitudes of its x- and
+  // y-dependent modes zero): list of (parameter name, value) sets, explored in addition to the deviation ball
+  std::function<std::vector<std::vector<std::pair<std::string, LD>>>(const std::vector<std::string>&)> structured;
   bool pointwise_admissibility;  // an inadmissible (assignment, point) pair drops only that point, not the whole assignment
   bool base_from_default;  // base = library defaults x distinct factors in (1, 1.07) instead of the generic base
   int max_dev_quick, max_dev_thorough;
